@@ -17,8 +17,10 @@ CONSTANTS
   ModernUnsub = FALSE
   Stepwise = TRUE
   Gates = FALSE
+  GateNames = {"inv", "usr", "put"}
   ClientFirst = FALSE
   MinSteps = 1
   MaxSteps = 7
+  Bias = FALSE
 INVARIANTS Export NeverLost OnlyEntitled NoneWhenDisabled UpdatedExactlySubscribers Fresh ForgottenOnClose
 CHECK_DEADLOCK FALSE
